@@ -4,8 +4,10 @@
 EXTENDS Ffldb
 
 \* Block records on disk are RawLen + 12 bytes: 93, 93 and 186 bytes.  With
-\* Limit = 279 three small records, or a small and a large one, fill a file
-\* exactly; anything more rolls over.
+\* Limit = 186 two small records or one large record fill a file exactly
+\* (roll-over is `offset + record > Limit'); with Limit = 279 three small
+\* ones or a small and a large one do.  The harness builds real blocks of
+\* exactly these serialized lengths.
 MC_RawLen == [b \in {"B1", "B2", "B3"} |-> IF b = "B3" THEN 174 ELSE 81]
 
 K0 == <<>>
